@@ -113,7 +113,12 @@ class TourSpec:
                 arr, dep = self.dep0, self.dep0
             else:
                 arr, dep = env.sym_f(f'{self.prefix}{old}_arr{idx}'), env.sym_f(f'{self.prefix}{old}_dep{idx}')
-            acts.append(env.activity(loc, dur, tws, twe, arr, dep, has_job=is_job))
+            job_arcs = getattr(self, 'job_arcs', None)
+            use = jobs if jobs is not None else self.jobs
+            arc = None
+            if job_arcs is not None and is_job:
+                arc = job_arcs.get(id(use[idx - 1]))
+            acts.append(env.activity(loc, dur, tws, twe, arr, dep, has_job=is_job, job=arc))
         actor = env.actor(self.start_loc, self.shift_start, self.end_loc, self.shift_end,
                           vehicle_costs=getattr(self, 'vehicle_costs', None), driver_costs=getattr(self, 'driver_costs', None),
                           dimens=getattr(self, 'vehicle_dimens', None))
@@ -2857,5 +2862,126 @@ def ob_capacity_reload(ctx, before, after, closed=True):
         if not (saw_acc and saw_rej):
             res.status, res.detail = 'inconclusive', f'vacuous at leg {p}: accepted={saw_acc} rejected={saw_rej}'
             break
+    res.time = time.time() - t0
+    return res
+
+
+def ob_insertion_e2e_both(ctx, k, closed=True, bits=16):
+    """C06 second sentence, both constraints at once: `eval_single` (real MIR) where `GoalContext::evaluate` is the real
+    time-window constraint followed by the real capacity constraint (first violation wins - the order of the goal), and the
+    tour state comes from the real `update_route_schedule` and `recalculate_states`.  Tour of k jobs with symbolic times
+    AND symbolic mixed demand, single-task job with a symbolic window and any single-kind demand.  Success => the returned
+    position is feasible for the time simulation and keeps the load profile within capacity; Failure => no position is
+    feasible for both."""
+    from symex import DynV
+    name = f'insertion_e2e_both[k={k},{"closed" if closed else "open"}]'
+    res = Result(name)
+    res.bounds = (f'tour of {k} jobs ({"closed" if closed else "open"}) with symbolic times and mixed static/dynamic demand; single-task job, one symbolic window, any single-kind '
+                  f'demand; times in [0,2^{bits}], amounts in [0,2^14], capacity in [0,2^15]; routing uninterpreted; exhaustive legs; symbolic cost per candidate')
+    t0 = time.time()
+    fn = ctx.prog.find_free('eval_single')
+    ea = ctx.prog.find_method('TransportConstraint', 'evaluate_activity')
+    ec = ctx.prog.find_method('CapacitatedMultiTrip', 'evaluate_activity')
+    rs = ctx.prog.find_method('CapacitatedMultiTrip', 'recalculate_states', trait='MultiTrip')
+    if len(ea) != 1 or len(ec) != 1 or len(rs) != 1:
+        raise Inconclusive('constraint functions not found')
+
+    class Env(drivers.Env):
+        def override(self, engine, st, callee, args, dest_ty):
+            if callee.endswith('GoalContext::evaluate'):
+                mc = deref_all(args[1])
+                v = engine.exec_fn(st, ea[0], [RefV(Cell(transport_constraint(self)), 0), mc.payload[1][1], mc.payload[1][2]])
+                if engine.split_bool(st, v.discr == 1):
+                    return v
+                return engine.exec_fn(st, ec[0], [RefV(Cell(multitrip(self)), 0), mc.payload[1][1], mc.payload[1][2]])
+            if callee.endswith('GoalContext::estimate'):
+                self.n_cost += 1
+                return self.struct('insertions::InsertionCost', data=VecV([self.sym_f_path(st, f'cost_call{self.n_cost}', 0, 2 ** 20)]))
+            if callee.endswith('InsertionCost::max_value'):
+                return RefV(Cell(self.struct('insertions::InsertionCost', data=VecV([FV.max_value()]))), 0)
+            return super().override(engine, st, callee, args, dest_ty)
+
+        def dyn_call(self, engine, st, trait, method, args, dest_ty):
+            if trait == 'ResultSelector' and method == 'select_cost':
+                return engine.exec_fn(st, self._trait_default('ResultSelector', 'select_cost'), args)
+            return super().dyn_call(engine, st, trait, method, args, dest_ty)
+
+    env = Env(ctx.prog, ctx.layout, bits)
+    env.type_subst = {'T': 'load::SingleDimLoad'}
+    eng = symex.Engine(ctx.prog, ctx.layout, env)
+    holder = {}
+
+    def body(st):
+        env.assumptions.clear()
+        env.n_cost = 0
+        spec = TourSpec(env, k, closed)
+        capacity = env.sym_i('capacity', 0, 2 ** 15, 'i32')
+        spec.vehicle_dimens = StateV({'vehicle_capacity': load_v(env, capacity.t)})
+        spec.job_arcs = {}
+        for i, j in enumerate(spec.jobs):
+            j['demand'] = sym_demand(env, f'd{i + 1}', 'any')
+            spec.job_arcs[id(j)] = single_job(env, j['demand'])
+        task = spec.sym_job('task0')
+        task['demand'] = sym_demand(env, 'task0_d', 'any')
+        holder.update(spec=spec, task=task, capacity=capacity)
+        rc = spec.build()
+        rc = run_update(ctx, env, eng, st, rc)
+        cell = Cell(rc)
+        eng.exec_fn(st, rs[0], [RefV(Cell(multitrip(env)), 0), RefV(cell, 0, True)])
+        rc = cell.v
+        place = env.struct('jobs::Place', location=mk_option(True, task['loc'], ty='Option<usize>'), duration=task['dur'],
+                           times=VecV([EnumV('domain::TimeSpan', 0, {0: [env.time_window(task['tws'], task['twe'])]})]))
+        single = ArcV(Cell(env.struct('jobs::Single', places=VecV([place]), dimens=StateV({'job_demand': demand_v(env, task['demand'])}))))
+        job = EnumV('jobs::Job', 0, {0: [single]})
+        eval_ctx = env.struct('evaluators::EvaluationContext', goal=RefV(Cell(Opaque('goal')), 0), job=RefV(Cell(job), 0),
+                              leg_selection=RefV(Cell(EnumV('selectors::LegSelection', 1, {})), 0), result_selector=RefV(Cell(DynV('selector')), 0))
+        route_costs = env.struct('insertions::InsertionCost', data=VecV([FV.const(0)]))
+        return eng.exec_fn(st, fn, [RefV(Cell(eval_ctx), 0), RefV(Cell(Opaque('SolutionContext')), 0), RefV(Cell(rc), 0), RefV(Cell(single), 0),
+                                    EnumV('evaluators::InsertionPosition', 0, {}), route_costs, mk_option(False, ty='Option<InsertionCost>')])
+
+    paths = eng.explore(body, max_paths=60000)
+    res.paths = len(paths)
+    res.functions |= eng.functions_used
+    order = ctx.layout.fields('insertions::InsertionSuccess')
+    n_legs = k + 1
+    saw_ok = saw_fail = False
+    for st, out in paths:
+        spec, task, capacity = holder['spec'], holder['task'], holder['capacity']
+        within = lambda js: z3.And(*[l <= capacity.t for l in ref_profile([j['demand'] for j in js])])
+        both = lambda js: z3.And(spec.feasible(js), within(js))
+        assume = spec.matrix_assumptions(spec.jobs + [task]) + [both(spec.jobs)]
+        if out is None:
+            if not no_panic(ctx, res, env, st, assume, what=name):
+                break
+            continue
+        if out.variant() is None:
+            res.status, res.detail = 'inconclusive', 'symbolic result variant'
+            break
+        if out.variant() == 0:
+            s = out.payload[0][0]
+            acts = s.fields[order.index('activities')].items
+            idx = acts[0].fields[1]
+            c = idx.concrete()
+            options = [z3.And(idx.t == p if c is None else z3.BoolVal(c == p), both(spec.jobs[:p] + [task] + spec.jobs[p:])) for p in range(n_legs)]
+            claim = z3.Or(*options)
+            what = f'{name}: success => returned position feasible for time windows AND capacity'
+            saw_ok = saw_ok or witness(ctx, res, env, st, z3.Or(*[task['demand'][key].t != 0 for key in ('sp', 'dp', 'sd', 'dd')]), assume)
+        else:
+            claim = z3.And(*[z3.Not(both(spec.jobs[:p] + [task] + spec.jobs[p:])) for p in range(n_legs)])
+            what = f'{name}: failure => no position feasible for both'
+            saw_fail = saw_fail or witness(ctx, res, env, st, z3.BoolVal(True), assume)
+        if not decide_claim(ctx, res, env, st, claim, assume, what=what):
+            if res.status == 'violated' and res.model is not None:
+                m = res.model
+                jd = lambda j: {'loc': _ev_int(m, j['loc'].t), 'dur': _ev_f(m, j['dur']), 'tws': _ev_f(m, j['tws']), 'twe': _ev_f(m, j['twe']),
+                                'demand': {key: _ev_int(m, v.t) for key, v in j['demand'].items()}}
+                res.case = make_case('insertion_e2e', env, spec, m, extra={'tasks': [jd(task)], 'capacity': _ev_int(m, capacity.t)})
+            break
+        if not no_panic(ctx, res, env, st, assume, what=name):
+            break
+    if res.status == 'holds':
+        res.witnesses = int(saw_ok) + int(saw_fail)
+        if not (saw_ok and saw_fail):
+            res.status, res.detail = 'inconclusive', f'vacuous: success={saw_ok} failure={saw_fail}'
     res.time = time.time() - t0
     return res
